@@ -11,8 +11,9 @@ the trace's decision and stress-relief spans use the stress-relief rate.
 Quantifiers: all client rates in `[0, 2^31)`, all trace rates (the sampler's answer is a parameter
 of the model), all states / histories of the collector model, every configuration.
 
-The decision record keeps `uint32(rate)` (`cache.NewKeptTraceCacheEntry`), so the sentence about
-late spans is false for rates ≥ 2^32: `LateUsesRecord` is refuted and proved under `rate < 2^32`.
+The decision record keeps the rate at full `uint` width (`cache.keptTraceCacheEntry.rate`; before
+the fix recorded as C04 `fixed` it kept `uint32(rate)` and the sentence about late spans was false
+for rates ≥ 2^32), so `LateUsesRecord` holds for every rate a Go `uint` can hold.
 -/
 namespace Refinery.Props.C04
 open Refinery Refinery.Model.Rates Refinery.Model.Decorate Refinery.Lemmas.Decorate
@@ -137,10 +138,10 @@ theorem ontime_merge (cfg : Cfg) (host : String) (p : Pending) (sp : Span)
 
 /-- **late path** (`dealWithSentTrace`), stated for the rate *the record holds*. -/
 theorem late_merge (cfg : Cfg) (host : String) (r : Rec) (sp : Span)
-    (hd : cfg.dry = false) (hc : sp.rate < two31) (ht : r.rate32 < two32) (ha : AttrsOk cfg.attrs) :
-    ∃ o, fwdLate cfg host (some r) sp = some o ∧ o.sid = sp.sid ∧ RateSpec sp.rate r.rate32 sp.fields o := by
+    (hd : cfg.dry = false) (hc : sp.rate < two31) (ht : r.rate < two32) (ha : AttrsOk cfg.attrs) :
+    ∃ o, fwdLate cfg host (some r) sp = some o ∧ o.sid = sp.sid ∧ RateSpec sp.rate r.rate sp.fields o := by
   refine ⟨_, rfl, rfl, ?_⟩
-  apply rateSpec_of_merge sp (preLate cfg host (some r) sp) r.rate32 _ hc ht
+  apply rateSpec_of_merge sp (preLate cfg host (some r) sp) r.rate _ hc ht
   · simp [hd, applyMerge_rate]
   · simp only [hd]
     rw [attrs_frame ha _ _ (by decide)]
@@ -239,10 +240,10 @@ theorem ontime_uses_trace_rate (s : St) (tid : String) (d : Decision) (spans : L
     · rw [hrate, ← hprate]; exact hspec.1
     · rw [hrate, ← hprate]; exact hspec.2.1
 
-/-- a "keep" decision on a buffered trace leaves a kept record holding `uint32(rate)` -/
+/-- a "keep" decision on a buffered trace leaves a kept record holding the sampler's rate -/
 theorem decide_keptAs (s : St) (tid : String) (d : Decision) (spans : List Span)
     (hl : (getT s tid).live = some spans) (hdr : (getT s tid).dropped = false) (hk : d.keep = true) :
-    KeptAs (getT (step s (.decide tid (some d))).1 tid) (trunc32 d.rate) d.reason := by
+    KeptAs (getT (step s (.decide tid (some d))).1 tid) d.rate d.reason := by
   have key : getT (step s (.decide tid (some d))).1 tid =
       { (record (getT s tid) d.rate d.keep d.reason spans) with live := none } := by
     simp only [step, hl]
@@ -251,10 +252,10 @@ theorem decide_keptAs (s : St) (tid : String) (d : Decision) (spans : List Span)
   simp [KeptAs, record, hk, hdr, mkRec]
 
 /-- the stress reliever's first "keep" answer for a trace without record leaves a kept record
-holding `uint32(rate)` -/
+holding its rate -/
 theorem stress_keptAs (s : St) (tid : String) (sp : Span) (rate : Nat) (reason : String)
     (hl : (getT s tid).live = none) (hdr : (getT s tid).dropped = false) (hk : (getT s tid).kept = none) :
-    KeptAs (getT (step s (.stress tid sp (some (rate, true, reason)))).1 tid) (trunc32 rate) reason ∧
+    KeptAs (getT (step s (.stress tid sp (some (rate, true, reason)))).1 tid) rate reason ∧
     (step s (.stress tid sp (some (rate, true, reason)))).2 = .fwd (fwdStress s.cfg s.host rate reason sp) := by
   have key : step s (.stress tid sp (some (rate, true, reason))) =
       (putT s tid (record (getT s tid) rate true reason []), .fwd (fwdStress s.cfg s.host rate reason sp)) := by
@@ -272,88 +273,63 @@ theorem late_of_keptAs (s : St) (tid : String) (sp : Span) (R : Nat) (rs : Strin
   constructor
   · rw [step_span_kept s tid sp r hl hdr hk]
     obtain ⟨o, ho, hsid, hspec⟩ := late_merge s.cfg s.host (r.count sp.kind) sp hd hc
-      (by rw [count_rate32, hr]; exact hR) ha
+      (by rw [count_rate, hr]; exact hR) ha
     refine ⟨o, ?_, hsid, ?_⟩
     · simp only [ho, lateOut]
-    · rw [count_rate32, hr] at hspec; exact hspec
+    · rw [count_rate, hr] at hspec; exact hspec
   · rw [step_stress_kept s tid sp r hdr hk]
-    have hR' : (r.count sp.kind).rate32 = R := by rw [count_rate32, hr]
+    have hR' : (r.count sp.kind).rate = R := by rw [count_rate, hr]
     refine ⟨_, rfl, ?_⟩
     rw [hR']
     exact stress_merge s.cfg s.host R _ sp hd hc hR ha
 
-theorem trunc32_lt (n : Nat) : trunc32 n < two32 := Nat.mod_lt _ (by decide)
+/-- the rate of a span arriving for a trace in state `KeptAs R`, without any bound on `R`: the Go
+`uint` product of `max(client,1)` and the recorded rate -/
+theorem late_rate_of_keptAs (s : St) (tid : String) (sp : Span) (R : Nat) (rs : String)
+    (h : KeptAs (getT s tid) R rs) (hd : s.cfg.dry = false) :
+    ∃ o, (step s (.span tid sp)).2 = .late o ∧ o.sid = sp.sid ∧ o.rate = mulU64 (max sp.rate 1) R := by
+  obtain ⟨hl, hdr, r, hk, hr, _⟩ := h
+  rw [step_span_kept s tid sp r hl hdr hk]
+  refine ⟨_, rfl, rfl, ?_⟩
+  simp [applyMerge_rate, merge, hd, count_rate, hr, temp_eq_max]
 
-/-- **late spans use the recorded rate — as the code has it**: after a "keep" decision with
-sampler rate `d.rate` and *any* further history `mid` (spans, decisions, drains, stress-relief
-spans, reloads), a span of that trace is forwarded — by `processSpan` or by
-`ProcessSpanImmediately` — with `max(client,1) · uint32(d.rate)`. -/
+/-- **late spans use the recorded rate, with the metadata fields** — after a "keep" decision with
+sampler rate `d.rate < 2^32` and *any* further history `mid` (spans, decisions, drains,
+stress-relief spans, reloads), a span of that trace is forwarded — by `processSpan` or by
+`ProcessSpanImmediately` — with `max(client,1) · d.rate`, records it as `final_sample_rate`, and the
+client rate as `original_sample_rate` iff nonzero. -/
 theorem late_uses_stored_rate (s : St) (tid : String) (d : Decision) (spans : List Span) (mid : List Op)
-    (sp : Span) (hl : (getT s tid).live = some spans) (hdr : (getT s tid).dropped = false)
-    (hk : d.keep = true) (hc : sp.rate < two31)
-    (hd : (run (step s (.decide tid (some d))).1 mid).cfg.dry = false)
-    (ha : AttrsOk (run (step s (.decide tid (some d))).1 mid).cfg.attrs) :
-    (∃ o, (step (run (step s (.decide tid (some d))).1 mid) (.span tid sp)).2 = .late o ∧ o.sid = sp.sid ∧
-      RateSpec sp.rate (trunc32 d.rate) sp.fields o) ∧
-    (∃ o, (step (run (step s (.decide tid (some d))).1 mid) (.stress tid sp none)).2 = .fwd o ∧
-      RateSpec sp.rate (trunc32 d.rate) sp.fields o) :=
-  late_of_keptAs _ tid sp (trunc32 d.rate) d.reason
-    (keptAs_run mid _ tid _ _ (decide_keptAs s tid d spans hl hdr hk)) hd hc (trunc32_lt _) ha
-
-/-- The property's sentence "late spans use the rate recorded with the trace's decision", at full
-strength: the rate the late span is multiplied with is the rate of the decision. -/
-def LateUsesRecord : Prop :=
-  ∀ (s : St) (tid : String) (d : Decision) (spans : List Span) (mid : List Op) (sp : Span),
-    (getT s tid).live = some spans → (getT s tid).dropped = false → d.keep = true → sp.rate < two31 →
-    (run (step s (.decide tid (some d))).1 mid).cfg.dry = false →
-    AttrsOk (run (step s (.decide tid (some d))).1 mid).cfg.attrs →
-    ∃ o, (step (run (step s (.decide tid (some d))).1 mid) (.span tid sp)).2 = .late o ∧
-      o.rate = max sp.rate 1 * d.rate
-
-/-- **late_uses_record_partial** — for decision rates below `2^32` (all samplers' normal range)
-the late span, after any history, carries `max(client,1) · d.rate`, records it as
-`final_sample_rate`, and the client rate as `original_sample_rate` iff nonzero. -/
-theorem late_uses_record_partial (s : St) (tid : String) (d : Decision) (spans : List Span) (mid : List Op)
     (sp : Span) (hl : (getT s tid).live = some spans) (hdr : (getT s tid).dropped = false)
     (hk : d.keep = true) (hc : sp.rate < two31) (hrate : d.rate < two32)
     (hd : (run (step s (.decide tid (some d))).1 mid).cfg.dry = false)
     (ha : AttrsOk (run (step s (.decide tid (some d))).1 mid).cfg.attrs) :
+    (∃ o, (step (run (step s (.decide tid (some d))).1 mid) (.span tid sp)).2 = .late o ∧ o.sid = sp.sid ∧
+      RateSpec sp.rate d.rate sp.fields o) ∧
+    (∃ o, (step (run (step s (.decide tid (some d))).1 mid) (.stress tid sp none)).2 = .fwd o ∧
+      RateSpec sp.rate d.rate sp.fields o) :=
+  late_of_keptAs _ tid sp d.rate d.reason
+    (keptAs_run mid _ tid _ _ (decide_keptAs s tid d spans hl hdr hk)) hd hc hrate ha
+
+/-- The property's sentence "late spans use the rate recorded with the trace's decision", at full
+strength — every rate a Go `uint` can hold, any history between the decision and the late span:
+the late span is multiplied (in `uint` arithmetic, like an on-time span) with the rate of the
+decision; whenever the product fits a `uint` it is the exact product. -/
+def LateUsesRecord : Prop :=
+  ∀ (s : St) (tid : String) (d : Decision) (spans : List Span) (mid : List Op) (sp : Span),
+    (getT s tid).live = some spans → (getT s tid).dropped = false → d.keep = true → d.rate < two64 →
+    (run (step s (.decide tid (some d))).1 mid).cfg.dry = false →
     ∃ o, (step (run (step s (.decide tid (some d))).1 mid) (.span tid sp)).2 = .late o ∧ o.sid = sp.sid ∧
-      RateSpec sp.rate d.rate sp.fields o := by
-  have h := (late_uses_stored_rate s tid d spans mid sp hl hdr hk hc hd ha).1
-  have : trunc32 d.rate = d.rate := Nat.mod_eq_of_lt hrate
-  rw [this] at h; exact h
+      o.rate = mulU64 (max sp.rate 1) d.rate ∧
+      (max sp.rate 1 * d.rate < two64 → o.rate = max sp.rate 1 * d.rate)
 
-def witnessState : St :=
-  { cfg := {}, host := "", traces := [("t", { live := some [] })] }
-
-/-- **late_uses_record_refuted** — witness: a trace kept at rate `2^32` (a value the stress-relief
-`SamplingRate` validation accepts, and which a sampler's `uint` result can hold); the record keeps
-`uint32(2^32) = 0`, so the next span of that trace is forwarded with `SampleRate = 0` instead of
-`2^32`. -/
-theorem late_uses_record_refuted : ¬ LateUsesRecord := by
-  intro h
-  let d : Decision := { rate := two32, keep := true, reason := "r", key := "" }
-  let sp : Span := { sid := 1, kind := .span, root := false, rate := 1, fields := [] }
-  have hl : (getT witnessState "t").live = some [] := by simp [witnessState, getT, AList.get]
-  have hdr : (getT witnessState "t").dropped = false := by simp [witnessState, getT, AList.get]
-  have hdry : (run (step witnessState (.decide "t" (some d))).1 []).cfg.dry = false := by
-    simp only [run, List.foldl_nil, step, hl]
-    split <;> rfl
-  have hattrs : AttrsOk (run (step witnessState (.decide "t" (some d))).1 []).cfg.attrs := by
-    have : (run (step witnessState (.decide "t" (some d))).1 []).cfg.attrs = [] := by
-      simp only [run, List.foldl_nil, step, hl]
-      split <;> rfl
-    rw [this]; exact ⟨List.nodup_nil, fun _ _ => by simp⟩
-  have hc : sp.rate < two31 := by decide
-  obtain ⟨o, ho, hrate⟩ := h witnessState "t" d [] [] sp hl hdr rfl hc hdry hattrs
-  obtain ⟨o', ho', _, hspec⟩ := (late_uses_stored_rate witnessState "t" d [] [] sp hl hdr rfl hc hdry hattrs).1
-  rw [ho] at ho'
-  injection ho' with ho'
-  subst ho'
-  have h0 : o.rate = 0 := by rw [hspec.1]; decide
-  rw [h0] at hrate
-  revert hrate; decide
+/-- **late_uses_record** — the full statement holds (the record keeps the rate at full width). -/
+theorem late_uses_record : LateUsesRecord := by
+  intro s tid d spans mid sp hl hdr hk _ hd
+  obtain ⟨o, ho, hsid, hrate⟩ := late_rate_of_keptAs _ tid sp d.rate d.reason
+    (keptAs_run mid _ tid _ _ (decide_keptAs s tid d spans hl hdr hk)) hd
+  refine ⟨o, ho, hsid, hrate, ?_⟩
+  intro hlt
+  rw [hrate]; unfold mulU64; exact Nat.mod_eq_of_lt hlt
 
 /-- **stress_uses_stress_rate** — the first span of a trace under stress relief is forwarded with
 `max(client,1) ·` the stress reliever's rate (for rates < 2^32 with the two metadata fields as in
@@ -365,7 +341,7 @@ theorem stress_uses_stress_rate (s : St) (tid : String) (sp : Span) (rate : Nat)
   ⟨_, (stress_keptAs s tid sp rate reason hl hdr hk).2, stress_merge s.cfg s.host rate reason sp hd hc ht ha⟩
 
 /-- later spans of a trace first seen under stress relief (any history in between, either path)
-use the record made then, i.e. `uint32(stress rate)` — equal to the stress rate below `2^32`. -/
+use the record made then, i.e. the stress rate. -/
 theorem stress_later_spans (s : St) (tid : String) (sp0 sp : Span) (rate : Nat) (reason : String) (mid : List Op)
     (hl : (getT s tid).live = none) (hdr : (getT s tid).dropped = false) (hk : (getT s tid).kept = none)
     (hc : sp.rate < two31) (ht : rate < two32)
@@ -374,11 +350,21 @@ theorem stress_later_spans (s : St) (tid : String) (sp0 sp : Span) (rate : Nat) 
     (∃ o, (step (run (step s (.stress tid sp0 (some (rate, true, reason)))).1 mid) (.span tid sp)).2 = .late o ∧
       o.sid = sp.sid ∧ RateSpec sp.rate rate sp.fields o) ∧
     (∃ o, (step (run (step s (.stress tid sp0 (some (rate, true, reason)))).1 mid) (.stress tid sp none)).2 = .fwd o ∧
-      RateSpec sp.rate rate sp.fields o) := by
-  have h := late_of_keptAs _ tid sp (trunc32 rate) reason
-    (keptAs_run mid _ tid _ _ (stress_keptAs s tid sp0 rate reason hl hdr hk).1) hd hc (trunc32_lt _) ha
-  have : trunc32 rate = rate := Nat.mod_eq_of_lt ht
-  rw [this] at h; exact h
+      RateSpec sp.rate rate sp.fields o) :=
+  late_of_keptAs _ tid sp rate reason
+    (keptAs_run mid _ tid _ _ (stress_keptAs s tid sp0 rate reason hl hdr hk).1) hd hc ht ha
+
+/-- the same for every stress rate a `uint` can hold (e.g. `SamplingRate = 2^32`): the late span
+carries the `uint` product with the stress rate, no truncation. -/
+theorem stress_later_spans_any_rate (s : St) (tid : String) (sp0 sp : Span) (rate : Nat) (reason : String)
+    (mid : List Op) (hl : (getT s tid).live = none) (hdr : (getT s tid).dropped = false)
+    (hk : (getT s tid).kept = none)
+    (hd : (run (step s (.stress tid sp0 (some (rate, true, reason)))).1 mid).cfg.dry = false) :
+    ∃ o, (step (run (step s (.stress tid sp0 (some (rate, true, reason)))).1 mid) (.span tid sp)).2 = .late o ∧
+      o.rate = mulU64 (max sp.rate 1) rate := by
+  obtain ⟨o, ho, _, hrate⟩ := late_rate_of_keptAs _ tid sp rate reason
+    (keptAs_run mid _ tid _ _ (stress_keptAs s tid sp0 rate reason hl hdr hk).1) hd
+  exact ⟨o, ho, hrate⟩
 
 /-! ## sampler floors -/
 
@@ -436,8 +422,7 @@ theorem router_rates (c : Nat) (hc : c < two31) :
 example : (merge 0 10 false).rate = 10 ∧ (merge 0 10 false).original = none := by decide
 example : (merge 3 7 false).rate = 21 ∧ (merge 3 7 false).final = some 21 ∧ (merge 3 7 false).original = some 3 := by decide
 example : (merge 2147483647 4294967295 false).rate = 2147483647 * 4294967295 := by decide
-example : trunc32 4294967296 = 0 ∧ trunc32 4294967297 = 1 := by decide
-example : (merge 5 (trunc32 4294967296) false).rate = 0 := by decide
+example : (merge 5 4294967296 false).rate = 5 * 4294967296 := by decide
 example : dynRate (-3) ≥ 1 ∧ dynRate 0 = 1 ∧ deterministicRate 0 = 1 ∧ deterministicRate 10 = 10 := by decide
 example : dynOutcome 0 = some 1 ∧ dynOutcome 7 = some 7 ∧ dynOutcome (-1) = none := by decide
 
